@@ -391,6 +391,13 @@ htp_status_t htp_connp_REQ_CONNECT_WAIT_RESPONSE(htp_connp_t *connp) {
         return HTP_DATA_OTHER;
     }
 
+    // An interim 100 response whose header block is still being read is not
+    // the answer to the CONNECT; the response parser goes back to waiting for
+    // a status line once it has consumed it.
+    if ((connp->in_tx->response_progress == HTP_RESPONSE_HEADERS) && (connp->in_tx->response_status_number == 100)) {
+        return HTP_DATA_OTHER;
+    }
+
     // A 2xx response means a tunnel was established. Anything
     // else means we continue to follow the HTTP stream.
     if ((connp->in_tx->response_status_number >= 200) && (connp->in_tx->response_status_number <= 299)) {
